@@ -183,6 +183,17 @@ func (p *provider) CreateScope(ctx context.Context) (Scope, error) {
 	p.scopesMu.Unlock()
 	verifPoint("provider.CreateScope.registered")
 
+	// The scope may have been closed before it was in the table - by somebody
+	// an initialization function handed it to. It has then removed itself
+	// from the table before it was in it: it must not stay there, and a
+	// closed scope is not what the caller asked for.
+	if atomic.LoadInt32(&s.disposed) != 0 {
+		p.scopesMu.Lock()
+		delete(p.scopes, s)
+		p.scopesMu.Unlock()
+		return nil, ErrScopeDisposed
+	}
+
 	// Auto-close on context cancellation
 	go func() {
 		<-ctx.Done()
